@@ -16,7 +16,10 @@ for q, f in sorted(ix.functions.items()):
         readable[q] = sorted({t for k, t, _ in at if not k})
     else:
         out[q] = []
-json.dump({"_comment": "pinned tree: function -> subjects (root symbols) of its rejection conditions (raise path conditions, assert tests); `readable` is for humans",
+memo = {q: exits.memoised_mutable(f.node) for q, f in sorted(ix.functions.items()) if exits.memoised_mutable(f.node)}
+narrow = {q: [k for k, _ in exits.narrowing_casts(f.node)] for q, f in sorted(ix.functions.items()) if exits.narrowing_casts(f.node)}
+decos = {q: exits.decorator_texts(f.node) for q, f in sorted(ix.functions.items()) if exits.decorator_texts(f.node)}
+json.dump({"memoised": memo, "narrowing": narrow, "decorators": decos, "instance_state": exits.instance_state(ix), "_comment": "pinned tree: function -> subjects (root symbols) of its rejection conditions (raise path conditions, assert tests); `readable` is for humans",
            "commit": os.popen(f"git -C {repo} rev-parse --short HEAD").read().strip(), "functions": out, "readable": readable},
           open(os.path.join(ROOT, "reference", "exits.json"), "w"), indent=0)
-print(len(out), "functions,", sum(1 for v in out.values() if v), "with rejection conditions,", sum(len(v) for v in out.values()), "atoms")
+print(len(memo), "memoised functions with mutable results;", len(out), "functions,", sum(1 for v in out.values() if v), "with rejection conditions,", sum(len(v) for v in out.values()), "atoms")
